@@ -24,8 +24,12 @@ func init() {
 			ruleNames(r, []string{"sstable-format", "wal-format", "sorted-recovery", "sorted-replay"})
 			ruleFlushErrflow(r)
 			ruleApplyBeforeRotate(r)
+			ruleSwapAfterRotate(r)
 			ruleFinishOnlyVerified(r)
 			ruleIdempotent(r)
+			ruleStagingNameRecognised(r)
+			ruleOpenRunsRecovery(r)
+			ruleReplayCountsEveryMutation(r)
 			c11FlagRules(r)
 			ruleRotate(r)
 			ruleWalDirAfterFlush(r)
@@ -45,6 +49,7 @@ func init() {
 		"Static ordering rules for the WAL: sync append = write + flush + fsync before a nil return (must-pass-through on the CFG), AppendSync uses the fsyncing writer call, rotation closes the old file before creating the next, size check precedes each write, replay sorts the fixed-width file names before reading, and replay classifies every truncation-class reader error as end of log (E-TORN). Decides the orderings on all paths; sequence equality and crash-point enumeration are not decided.",
 		durAssume, func(r *Report) {
 			ruleWriteFlushFsync(r)
+			ruleNoMergeDecode(r)
 			ruleStickyWriteError(r)
 			ruleSyncFailureRollsBack(r)
 			ruleBufferedOrder(r)
@@ -62,6 +67,9 @@ func init() {
 		durAssume, func(r *Report) {
 			ruleWalDirAfterFlush(r)
 			ruleIdempotent(r)
+			ruleStagingNameRecognised(r)
+			ruleOpenRunsRecovery(r)
+			ruleReplayCountsEveryMutation(r)
 			ruleDeleteAfterFlag(r)
 			ruleTorn(r)
 			rulePartialTable(r)
@@ -90,6 +98,7 @@ func init() {
 			ruleHeaderAtOpen(r)
 			ruleFreshWalDir(r)
 			ruleWalReclaim(r)
+			ruleReplayCountsEveryMutation(r)
 			ruleReplayClosesPerFile(r)
 		})
 }
